@@ -1,6 +1,6 @@
 (* SoapProofs.v - theorems about the SOAP (eigenvalue-corrected Shampoo) branch of Optimizer.v (property C03). *)
 From Coq Require Import ZArith List Bool Arith Lia Reals Lra.
-From Shampoo Require Import Scalar Matrix MatrixProofs Eigenvectors Optimizer OptimizerProofs SoapDefs.
+From Shampoo Require Import Scalar Matrix MatrixProofs Eigenvectors EigenvectorsProofs Optimizer OptimizerProofs SoapDefs.
 Import ListNotations.
 
 (* ====================================================================== Part 1: lists by index (any scalar) *)
@@ -634,3 +634,860 @@ Section RealRotation.
     - apply Hfin. exact Hx.
   Qed.
 End RealRotation.
+
+(* ====================================================================== Part 5: the SOAP branch of the block step (any scalar) *)
+Local Close Scope R_scope.
+Section SoapModel.
+  Context {F : Type} (Op : ops F).
+  Local Notation lmat := (list (list F)).
+
+  Lemma mode_products_length_gen : forall ds Ms (x : list F),
+    length Ms = length ds -> length x = numel ds -> length (mode_products Op ds Ms x) = numel ds.
+  Proof.
+    induction ds as [|d ds IH]; intros Ms x HMs Hx; [exact Hx|].
+    destruct Ms as [|oM Ms]; [discriminate|]. cbn [mode_products]. change (numel (d :: ds)) with (d * numel ds) in *.
+    rewrite (concat_uniform_length _ (numel ds)).
+    - rewrite map_length, chunks_length. reflexivity.
+    - intros r Hr. apply in_map_iff in Hr. destruct Hr as (row & <- & Hrow).
+      apply IH; [cbn in HMs; lia|].
+      refine (chunks_rows_In (numel ds) d _ row _ Hrow).
+      destruct oM; [apply mode0_length|exact Hx].
+  Qed.
+  Lemma rot_into_basis_length_gen (c : cfg (F:=F)) dims (Qs : list lmat) x :
+    mats_fit (dims_selector c (length dims)) dims Qs -> length x = numel dims -> length (rot_into_basis Op c dims Qs x) = numel dims.
+  Proof.
+    intros Hfit Hx. unfold rot_into_basis. destruct (soap_basis_exists Op Qs); [|exact Hx].
+    apply mode_products_length_gen; [apply sel_mats_length; exact Hfit|exact Hx].
+  Qed.
+
+  (* rotation into / out of the eigenbasis = product of mode products; ignored modes are not touched, and without a basis
+     (no preconditioned mode, or first basis all zero) nothing is rotated *)
+  Theorem soap_rotate_spec (c : cfg (F:=F)) dims (Qs : list lmat) x :
+    mats_fit (dims_selector c (length dims)) dims Qs -> length x = numel dims ->
+    soap_rotate Op c dims Qs x = rot_into_basis Op c dims Qs x.
+  Proof.
+    intros Hfit Hx. unfold soap_rotate, rot_into_basis, soap_basis_exists. destruct Qs as [|Q0 Qs]; [reflexivity|].
+    destruct (any_nonzero Op Q0); [|reflexivity].
+    rewrite cyclic_tensordot_is_mode_product by assumption. reflexivity.
+  Qed.
+  Theorem soap_rotate_back_spec (c : cfg (F:=F)) dims (Qs : list lmat) x :
+    mats_fit (dims_selector c (length dims)) dims Qs -> length x = numel dims ->
+    soap_rotate_back Op c dims Qs x = rot_back_from_basis Op c dims Qs x.
+  Proof.
+    intros Hfit Hx. unfold soap_rotate_back, rot_back_from_basis, soap_basis_exists. destruct Qs as [|Q0 Qs]; [reflexivity|].
+    destruct (any_nonzero Op Q0); [|reflexivity].
+    rewrite cyclic_tensordot_is_mode_product by assumption. reflexivity.
+  Qed.
+
+  (* an ignored mode is not touched: the reference semantics skips it *)
+  Lemma mode_products_ignored d ds (Ms : list (option lmat)) x :
+    mode_products Op (d :: ds) (None :: Ms) x = concat (map (mode_products Op ds Ms) (chunks (numel ds) d x)).
+  Proof. reflexivity. Qed.
+
+  (* all modes ignored: the loop (n left rotations) returns the tensor unchanged *)
+  Lemma mode_products_all_ignored : forall ds (x : list F), length x = numel ds ->
+    mode_products Op ds (map (fun _ => None) ds) x = x.
+  Proof.
+    induction ds as [|d ds IH]; intros x Hx; [reflexivity|]. cbn [map mode_products].
+    change (numel (d :: ds)) with (d * numel ds) in Hx.
+    rewrite (map_ext_in _ (fun y => y)), map_id; [apply (concat_chunks Op); exact Hx|].
+    intros y Hy. apply IH. apply (chunks_rows_In (numel ds) d x y Hx Hy).
+  Qed.
+
+  Lemma mats_fit_sel_length : forall sel dims (mats : list lmat), mats_fit sel dims mats -> length sel = length dims.
+  Proof.
+    induction sel as [|b s IH]; intros dims mats H.
+    - destruct dims; [reflexivity|contradiction].
+    - destruct dims as [|d ds]; [destruct b; contradiction|]. destruct b.
+      + destruct mats as [|M ms]; [contradiction|]. destruct H as [_ H]. cbn. rewrite (IH ds ms H). reflexivity.
+      + cbn. rewrite (IH ds mats H). reflexivity.
+  Qed.
+
+  (* ignored dimensions are never rotated: the loop has NO matrix for them, neither on the way into the basis nor back *)
+  Lemma dims_selector_nth (c : cfg (F:=F)) order k : k < order ->
+    nth k (dims_selector c order) true = negb (existsb (Nat.eqb k) (c_ignored c)).
+  Proof.
+    intros H. unfold dims_selector.
+    rewrite (nth_map_seq (fun d => negb (existsb (Nat.eqb d) (c_ignored c)))) by exact H. reflexivity.
+  Qed.
+  Lemma sel_mats_ignored tr : forall sel dims (mats : list lmat) k,
+    mats_fit sel dims mats -> k < length sel -> nth k sel true = false -> nth k (sel_mats Op tr sel mats) (Some []) = None.
+  Proof.
+    induction sel as [|b s IH]; intros dims mats k Hfit Hk Hn; [cbn in Hk; lia|].
+    destruct dims as [|d ds]; [destruct b; contradiction|]. destruct b.
+    - destruct mats as [|M ms]; [contradiction|]. destruct Hfit as [_ Hfit]. destruct k; [discriminate|].
+      cbn [sel_mats nth]. apply (IH ds ms k Hfit); [cbn in Hk; lia|exact Hn].
+    - destruct k; [reflexivity|]. cbn [sel_mats nth]. apply (IH ds mats k Hfit); [cbn in Hk; lia|exact Hn].
+  Qed.
+  Theorem ignored_dims_never_rotated (c : cfg (F:=F)) dims (Qs : list lmat) tr k :
+    mats_fit (dims_selector c (length dims)) dims Qs -> k < length dims -> In k (c_ignored c) ->
+    nth k (sel_mats Op tr (dims_selector c (length dims)) Qs) (Some []) = None.
+  Proof.
+    intros Hfit Hk Hin. apply (sel_mats_ignored tr _ dims Qs k Hfit).
+    - unfold dims_selector. rewrite map_length, seq_length. exact Hk.
+    - rewrite dims_selector_nth by exact Hk. apply negb_false_iff. apply existsb_exists. exists k. split; [exact Hin|apply Nat.eqb_refl].
+  Qed.
+
+  (* ---- the block step, SOAP kind, component by component *)
+  Lemma block_step_soap (c : cfg (F:=F)) t h dims answers w st g0 :
+    c_kind c = KSoap ->
+    let g := l2_grad Op c w g0 in
+    let fs := update_factors Op c dims g (s_factors st) in
+    let bc2 := bias_corr2 Op (c_biascorr c) (c_beta2 c) t (h_bc2 h) in
+    let r := if perform_amortized c t then refresh Op c (length dims) bc2 fs (s_inv st) (s_isdiag st) answers
+             else (s_inv st, s_isdiag st, []) in
+    let res := block_step Op c t h dims answers w st g0 in
+    let st' := snd (fst res) in
+    s_factors st' = fs /\ s_inv st' = fst (fst r) /\ s_isdiag st' = snd (fst r) /\ snd res = snd r
+    /\ s_coreig st' = ema_sq Op (c_beta2 c) (s_coreig st) (soap_rotate Op c dims (fst (fst r)) g).
+  Proof.
+    intros Hk. cbv zeta. unfold block_step. rewrite Hk.
+    destruct (if perform_amortized c t then _ else _) as [[invs dg] qs].
+    destruct (filter_grad Op c t h (s_filt st) _) as [ghat filt].
+    destruct (momentum_step Op c (s_mom st) _) as [P M']. cbn. repeat split; reflexivity.
+  Qed.
+
+  Lemma refresh_soap_queries (c : cfg (F:=F)) order bc2 : c_kind c = KSoap -> forall fs invs dg answers,
+    snd (refresh Op c order bc2 fs invs dg answers) = soap_queries Op fs invs dg.
+  Proof.
+    intros Hk. induction fs as [|Fk fs IH]; intros invs dg answers; destruct invs as [|Ik invs], dg as [|d dg]; try reflexivity.
+    cbn [refresh soap_queries]. specialize (IH invs dg (tl answers)).
+    destruct (refresh Op c order bc2 fs invs dg (tl answers)) as [[ri rd] rq]. cbn [snd] in *. rewrite Hk, IH. reflexivity.
+  Qed.
+
+  (* bases change only at a scheduled refresh; at a refresh the oracle is asked exactly about
+     (factor accumulated at this step, previous basis as estimate, diagonality flag) and its answers are stored *)
+  Theorem soap_refresh_only_on_schedule (c : cfg (F:=F)) t h dims answers w st g0 :
+    c_kind c = KSoap ->
+    let res := block_step Op c t h dims answers w st g0 in
+    let st' := snd (fst res) in
+    let fs := update_factors Op c dims (l2_grad Op c w g0) (s_factors st) in
+    (perform_amortized c t = false -> s_inv st' = s_inv st /\ s_isdiag st' = s_isdiag st /\ snd res = [])
+    /\ (s_inv st' <> s_inv st -> refresh_at c t)
+    /\ (perform_amortized c t = true ->
+        snd res = soap_queries Op fs (s_inv st) (s_isdiag st)
+        /\ (length (s_inv st) = length fs -> length (s_isdiag st) = length fs -> length answers = length fs ->
+            s_inv st' = answers)).
+  Proof.
+    intros Hk. cbv zeta. destruct (block_step_soap c t h dims answers w st g0 Hk) as (_ & Hi & Hd & Hq & _).
+    cbv zeta in Hi, Hd, Hq. rewrite Hi, Hd, Hq.
+    destruct (perform_amortized c t) eqn:Hp.
+    - split; [discriminate|]. split; [intros _; apply refresh_schedule_spec; exact Hp|]. intros _.
+      split; [apply refresh_soap_queries; exact Hk|]. intros H1 H2 H3. apply refresh_stores_answers; assumption.
+    - cbn [fst snd]. split; [auto|]. split; [congruence|discriminate].
+  Qed.
+
+  (* the corrected eigenvalues of a step are updated AFTER the possible refresh: with the gradient rotated into the
+     bases the step leaves stored (the new ones at a refresh) *)
+  Theorem refresh_before_eigenvalue_update (c : cfg (F:=F)) t h dims answers w st g0 :
+    c_kind c = KSoap ->
+    let st' := snd (fst (block_step Op c t h dims answers w st g0)) in
+    s_coreig st' = ema_sq Op (c_beta2 c) (s_coreig st) (soap_rotate Op c dims (s_inv st') (l2_grad Op c w g0)).
+  Proof.
+    intros Hk. cbv zeta. destruct (block_step_soap c t h dims answers w st g0 Hk) as (_ & Hi & _ & _ & Hv).
+    cbv zeta in Hi, Hv. rewrite Hv, Hi. reflexivity.
+  Qed.
+
+  (* ---- oracle view: every stored basis is the oracle's answer to (refresh factor, previous basis, diagonality flag) *)
+  Section Oracle.
+    Variable eigvecs : lmat -> lmat -> bool -> lmat.     (* matrix_eigenvectors(A, estimate, is_diagonal), configured method *)
+
+    Lemma nth_oracle_answers : forall fs invs dg k, length invs = length fs -> length dg = length fs -> k < length fs ->
+      nth k (oracle_answers Op eigvecs fs invs dg) []
+      = eigvecs (nth k fs []) (nth k invs []) (nth k dg false && check_diagonal Op (nth k fs [])).
+    Proof.
+      induction fs as [|Fk fs IH]; intros invs dg k Hi Hd Hk; [cbn in Hk; lia|].
+      destruct invs as [|Ik invs], dg as [|d dg]; try discriminate. cbn [oracle_answers].
+      destruct k; [reflexivity|]. cbn [nth]. apply IH; cbn in *; lia.
+    Qed.
+    Lemma oracle_answers_length : forall fs invs dg, length invs = length fs -> length dg = length fs ->
+      length (oracle_answers Op eigvecs fs invs dg) = length fs.
+    Proof.
+      induction fs as [|Fk fs IH]; intros invs dg Hi Hd; [reflexivity|].
+      destruct invs as [|Ik invs], dg as [|d dg]; try discriminate. cbn. rewrite IH; cbn in *; lia.
+    Qed.
+
+    Theorem basis_is_oracle_of_refresh_factor (c : cfg (F:=F)) t h dims w st g0 :
+      c_kind c = KSoap -> perform_amortized c t = true ->
+      let fs := update_factors Op c dims (l2_grad Op c w g0) (s_factors st) in
+      length (s_inv st) = length fs -> length (s_isdiag st) = length fs ->
+      let res := block_step Op c t h dims (oracle_answers Op eigvecs fs (s_inv st) (s_isdiag st)) w st g0 in
+      let st' := snd (fst res) in
+      s_factors st' = fs
+      /\ length (s_inv st') = length fs
+      /\ forall k, k < length fs ->
+           nth k (s_inv st') [] = eigvecs (nth k fs []) (nth k (s_inv st) [])
+                                          (nth k (s_isdiag st) false && check_diagonal Op (nth k fs [])).
+    Proof.
+      intros Hk Hp fs Hi Hd. cbv zeta.
+      destruct (block_step_soap c t h dims (oracle_answers Op eigvecs fs (s_inv st) (s_isdiag st)) w st g0 Hk) as (Hf & Hinv & _).
+      cbv zeta in Hf, Hinv. rewrite Hp in Hinv. fold fs in Hf, Hinv.
+      rewrite refresh_stores_answers in Hinv by (try assumption; apply oracle_answers_length; assumption).
+      split; [exact Hf|]. rewrite Hinv. split; [apply oracle_answers_length; assumption|].
+      intros k Hlt. apply nth_oracle_answers; assumption.
+    Qed.
+  End Oracle.
+
+  (* ---- the direction: rotate, divide by (V/bc2 + eps)^(1/root), rotate back *)
+  Lemma map2_length_min {A B C} (f : A -> B -> C) : forall l1 l2 n, length l1 = n -> length l2 = n -> length (map2 f l1 l2) = n.
+  Proof. intros l1 l2 n H1 H2. rewrite map2_length; congruence. Qed.
+
+  Theorem shampoo_precond_soap (c : cfg (F:=F)) dims bc2 st x :
+    c_kind c = KSoap -> mats_fit (dims_selector c (length dims)) dims (s_inv st) ->
+    length x = numel dims -> length (s_coreig st) = numel dims ->
+    shampoo_precond Op c dims bc2 st x = adam_direction_in_basis Op c dims bc2 (s_inv st) (s_coreig st) x.
+  Proof.
+    intros Hk Hfit Hx HV. unfold shampoo_precond, adam_direction_in_basis. rewrite Hk.
+    rewrite soap_rotate_spec by assumption.
+    apply soap_rotate_back_spec; [exact Hfit|].
+    apply map2_length_min; [|exact HV].
+    unfold rot_into_basis. destruct (soap_basis_exists Op (s_inv st)); [|exact Hx].
+    pose proof (cyclic_tensordot_is_mode_product Op false _ dims (s_inv st) x Hfit Hx) as E.
+    apply (f_equal (fun t => length (tdat t))) in E. cbn [tdat] in E. rewrite <- E. clear E.
+    pose proof (precond_chain_data Op false _ dims (s_inv st) [] x Hfit) as H. rewrite app_nil_r in H.
+    rewrite H by exact Hx. cbn [tdat app]. clear H.
+    (* length of the index form: every step keeps the number of entries *)
+    assert (G : forall ds Ms bt (y : list F), length Ms = length ds -> length y = numel ds * bt -> length (chain_ix Op ds Ms bt y) = numel ds * bt).
+    { clear. induction ds as [|d ds IH]; intros Ms bt y HMs Hy; [exact Hy|].
+      destruct Ms as [|[M|] Ms]; try discriminate; cbn [chain_ix]; change (numel (d :: ds)) with (d * numel ds) in *.
+      - rewrite IH; [lia|cbn in HMs; lia|rewrite tdot_ix_length; lia].
+      - rewrite IH; [lia|cbn in HMs; lia|rewrite rot_ix_length; lia]. }
+    rewrite G; [cbn; lia|apply sel_mats_length; exact Hfit|cbn; lia].
+  Qed.
+End SoapModel.
+
+(* ====================================================================== Part 6: real numbers - the SOAP step is Adam in a valid basis *)
+Local Open Scope R_scope.
+
+Section SoapReal.
+  Variable rnd : R -> R.
+  Local Notation RO := (R_ops rnd).
+  Local Notation rsum := (sumn RO).
+  Local Notation lmat := (list (list R)).
+
+  Lemma back_pair_rows : forall sel dims (Qs : list lmat),
+    mats_fit sel dims Qs -> all_fit (rows_orthonormal RO) sel dims Qs ->
+    back_pair RO dims (sel_mats RO false sel Qs) (sel_mats RO true sel Qs).
+  Proof.
+    induction sel as [|b s IH]; intros dims Qs Hfit Hall.
+    - destruct dims; [exact I|contradiction].
+    - destruct dims as [|d ds]; [destruct b; contradiction|]. destruct b.
+      + destruct Qs as [|Q Qs]; [contradiction|]. destruct Hfit as [HQ Hfit]. destruct Hall as [Horth Hall].
+        cbn [sel_mats back_pair]. split; [|apply IH; assumption].
+        intros k j Hk Hj. rewrite <- (Horth k j Hk Hj). apply sumn_ext. intros i Hi.
+        rewrite HQ. rewrite mnth_mtrans by lia. reflexivity.
+      + cbn [sel_mats back_pair]. apply IH; assumption.
+  Qed.
+  Lemma back_pair_cols : forall sel dims (Qs : list lmat),
+    mats_fit sel dims Qs -> all_fit (cols_orthonormal RO) sel dims Qs ->
+    back_pair RO dims (sel_mats RO true sel Qs) (sel_mats RO false sel Qs).
+  Proof.
+    induction sel as [|b s IH]; intros dims Qs Hfit Hall.
+    - destruct dims; [exact I|contradiction].
+    - destruct dims as [|d ds]; [destruct b; contradiction|]. destruct b.
+      + destruct Qs as [|Q Qs]; [contradiction|]. destruct Hfit as [HQ Hfit]. destruct Hall as [Horth Hall].
+        cbn [sel_mats back_pair]. split; [|apply IH; assumption].
+        intros k j Hk Hj. rewrite <- (Horth k j Hk Hj). apply sumn_ext. intros i Hi.
+        rewrite HQ. rewrite mnth_mtrans by lia. reflexivity.
+      + cbn [sel_mats back_pair]. apply IH; assumption.
+  Qed.
+
+  Lemma rot_into_basis_length (c : cfg (F:=R)) dims Qs x :
+    mats_fit (dims_selector c (length dims)) dims Qs -> length x = numel dims -> length (rot_into_basis RO c dims Qs x) = numel dims.
+  Proof.
+    intros Hfit Hx. unfold rot_into_basis. destruct (soap_basis_exists RO Qs); [|exact Hx].
+    apply mode_products_length; [apply sel_mats_length; exact Hfit|exact Hx].
+  Qed.
+
+  (* rotate_back_inverse, EVERY order and every set of ignored dimensions: rows of every Q_k orthonormal (Q_k Q_k^T = I) *)
+  Theorem rotate_back_inverse (c : cfg (F:=R)) dims (Qs : list lmat) x :
+    let sel := dims_selector c (length dims) in
+    mats_fit sel dims Qs -> all_fit (rows_orthonormal RO) sel dims Qs -> length x = numel dims ->
+    soap_rotate_back RO c dims Qs (soap_rotate RO c dims Qs x) = x.
+  Proof.
+    intros sel Hfit Horth Hx.
+    rewrite soap_rotate_spec by assumption.
+    rewrite soap_rotate_back_spec by (try assumption; apply rot_into_basis_length; assumption).
+    unfold rot_back_from_basis, rot_into_basis. destruct (soap_basis_exists RO Qs); [|reflexivity].
+    apply mode_products_inverse; [apply back_pair_rows; assumption|exact Hx].
+  Qed.
+  (* ... and the other composition needs orthonormal columns (Q_k^T Q_k = I) *)
+  Theorem rotate_inverse_back (c : cfg (F:=R)) dims (Qs : list lmat) y :
+    let sel := dims_selector c (length dims) in
+    mats_fit sel dims Qs -> all_fit (cols_orthonormal RO) sel dims Qs -> length y = numel dims ->
+    soap_rotate RO c dims Qs (soap_rotate_back RO c dims Qs y) = y.
+  Proof.
+    intros sel Hfit Horth Hy.
+    rewrite soap_rotate_back_spec by assumption.
+    assert (Hl : length (rot_back_from_basis RO c dims Qs y) = numel dims).
+    { unfold rot_back_from_basis. destruct (soap_basis_exists RO Qs); [|exact Hy].
+      apply mode_products_length; [apply sel_mats_length; exact Hfit|exact Hy]. }
+    rewrite soap_rotate_spec by assumption.
+    unfold rot_back_from_basis, rot_into_basis. destruct (soap_basis_exists RO Qs); [|reflexivity].
+    apply mode_products_inverse; [apply back_pair_cols; assumption|exact Hy].
+  Qed.
+
+  (* ---- lengths through one step *)
+  Lemma l2_grad_length (c : cfg (F:=R)) w g n : length w = n -> length g = n -> length (l2_grad RO c w g) = n.
+  Proof.
+    intros Hw Hg. unfold l2_grad. destruct (nz RO (c_wd c) && negb (c_decoupled c)); [|exact Hg].
+    unfold vaxpy. apply map2_length_min; assumption.
+  Qed.
+  Lemma ema_sq_length b2 (v x : list R) n : length v = n -> length x = n -> length (ema_sq RO b2 v x) = n.
+  Proof. intros Hv Hx. unfold ema_sq. destruct (is_one RO b2); apply map2_length_min; assumption. Qed.
+  Lemma filter_grad_length (c : cfg (F:=R)) t h m g n :
+    length g = n -> (c_beta1 c <> 0 -> length m = n) -> length (fst (filter_grad RO c t h m g)) = n.
+  Proof.
+    intros Hg Hm. unfold filter_grad. destruct (nz RO (c_beta1 c)) eqn:E; [|exact Hg].
+    apply nz_R in E. specialize (Hm E). cbn [fst].
+    assert (H1 : forall wgt, length (vlerp RO m g wgt) = n) by (intros; unfold vlerp; apply map2_length_min; assumption).
+    destruct (feqb RO (c_beta3 c) (c_beta1 c)), (c_biascorr c); try rewrite map_length; apply H1.
+  Qed.
+
+  (* ---- soap_step_is_adam_in_basis *)
+  Theorem soap_step_is_adam_in_basis (c : cfg (F:=R)) t h dims answers w st g0 :
+    c_kind c = KSoap ->
+    let N := numel dims in
+    let st' := snd (fst (block_step RO c t h dims answers w st g0)) in
+    let Q' := s_inv st' in
+    let g := l2_grad RO c w g0 in
+    let bc2 := bias_corr2 RO (c_biascorr c) (c_beta2 c) t (h_bc2 h) in
+    let ghat := fst (filter_grad RO c t h (s_filt st) g) in
+    mats_fit (dims_selector c (length dims)) dims Q' ->
+    length w = N -> length g0 = N -> length (s_coreig st) = N -> (c_beta1 c <> 0 -> length (s_filt st) = N) ->
+    (* the accumulator receives the squared gradient, rotated into the bases the step leaves stored, every step *)
+    s_coreig st' = (if Reqb (c_beta2 c) 1
+                    then map2 (fun v r => v + r * r) (s_coreig st) (rot_into_basis RO c dims Q' g)
+                    else map2 (fun v r => c_beta2 c * v + (1 - c_beta2 c) * (r * r)) (s_coreig st) (rot_into_basis RO c dims Q' g))
+    (* the direction is rot_back( rot ghat / (V'/bc2 + eps)^(1/root) ), followed by the usual grafting / decay / momentum *)
+    /\ block_direction RO c t h dims answers w st g0 =
+       (let gv := graft_update RO c (s_graft st) g in
+        let Ps := adam_direction_in_basis RO c dims bc2 Q' (s_coreig st') ghat in
+        let P := if use_grafting_method c t then graft_precond RO c t h gv ghat
+                 else match c_graft c with
+                      | GNone => Ps
+                      | _ => vscale RO (norm2 RO (graft_precond RO c t h gv ghat) / (norm2 RO Ps + graft_eps RO)) Ps
+                      end in
+        let P := if nz RO (c_wd c) && c_decoupled c then vaxpy RO P (c_wd c) w else P in
+        fst (momentum_step RO c (s_mom st) P)).
+  Proof.
+    intros Hk. cbv zeta.
+    destruct (block_step_soap RO c t h dims answers w st g0 Hk) as (Hf & Hi & Hd & _ & Hv). cbv zeta in Hf, Hi, Hd, Hv.
+    set (st' := snd (fst (block_step RO c t h dims answers w st g0))) in *.
+    intros Hfit Hw Hg0 HV Hfilt.
+    set (g := l2_grad RO c w g0) in *.
+    assert (Hg : length g = numel dims) by (apply l2_grad_length; assumption).
+    assert (Hrot : soap_rotate RO c dims (s_inv st') g = rot_into_basis RO c dims (s_inv st') g)
+      by (apply soap_rotate_spec; assumption).
+    assert (HV' : s_coreig st' = ema_sq RO (c_beta2 c) (s_coreig st) (rot_into_basis RO c dims (s_inv st') g))
+      by (rewrite Hv, <- Hi; exact (f_equal _ Hrot)).
+    split; [rewrite HV'; apply ema_sq_spec|].
+    assert (HlenV' : length (s_coreig st') = numel dims).
+    { rewrite HV'. apply ema_sq_length; [exact HV|apply rot_into_basis_length; assumption]. }
+    assert (Hghat : length (fst (filter_grad RO c t h (s_filt st) g)) = numel dims) by (apply filter_grad_length; assumption).
+    unfold block_direction. fold g. rewrite Hk.
+    remember (if perform_amortized c t then _ else _) as r eqn:Hr in *.
+    destruct r as [[invs dg] qs]. cbn [fst snd] in Hi, Hd, Hv.
+    destruct (filter_grad RO c t h (s_filt st) g) as [ghat filt] eqn:Hfg. cbn [fst] in *.
+    rewrite <- Hv, <- Hi.
+    rewrite (shampoo_precond_soap RO c dims _ (mkS _ (s_inv st') _ (s_coreig st') _ _ _) ghat Hk) by assumption.
+    reflexivity.
+  Qed.
+End SoapReal.
+
+(* ====================================================================== Part 7: oracle contracts *)
+Section Contracts.
+  Variable rnd : R -> R.
+  Local Notation RO := (R_ops rnd).
+  Local Notation rsum := (sumn RO).
+  Local Notation lmat := (list (list R)).
+
+  (* eigendecomposition method: the oracle contract (what torch.linalg.eigh is trusted / measured to deliver) on the
+     matrices of a domain [dom]: the answer is an orthogonal matrix (orthonormal rows and columns) that diagonalises the
+     queried matrix.  (For a square real matrix orthonormal columns imply orthonormal rows; that implication is not proved
+     here, so the contract names both and the harness measures both.) *)
+  Section EighContract.
+    Variable eigvecs : lmat -> lmat -> bool -> lmat.
+    Variable dom : lmat -> Prop.
+    Hypothesis eigh_contract : forall A E d, dom A ->
+      orthonormal RO (length A) (eigvecs A E d) /\ diagonalises RO (length A) A (eigvecs A E d).
+
+    Theorem stored_basis_valid_eigh (c : cfg (F:=R)) t h dims w st g0 :
+      c_kind c = KSoap -> perform_amortized c t = true ->
+      let fs := update_factors RO c dims (l2_grad RO c w g0) (s_factors st) in
+      length (s_inv st) = length fs -> length (s_isdiag st) = length fs ->
+      let st' := snd (fst (block_step RO c t h dims (oracle_answers RO eigvecs fs (s_inv st) (s_isdiag st)) w st g0)) in
+      forall k, (k < length fs)%nat -> dom (nth k fs []) ->
+        orthonormal RO (length (nth k fs [])) (nth k (s_inv st') [])
+        /\ diagonalises RO (length (nth k fs [])) (nth k fs []) (nth k (s_inv st') []).
+    Proof.
+      intros Hk Hp fs Hi Hd st' k Hlt Hdom.
+      destruct (basis_is_oracle_of_refresh_factor RO eigvecs c t h dims w st g0 Hk Hp Hi Hd) as (_ & _ & Hnth).
+      fold fs in Hnth. fold st' in Hnth. rewrite (Hnth k Hlt). apply eigh_contract. exact Hdom.
+    Qed.
+  End EighContract.
+
+  (* ---- link to the model of matrix_eigenvectors of property C12 (Eigenvectors.v): the optimizer's oracle is that
+     routine, called with the factor (n x n), the stored basis as estimate, and the diagonality flag; a failed call keeps
+     the previous basis (_amortized_computation) *)
+  Section C12Link.
+    Variable eigh : nat -> nat -> Matrix.mat R -> reply (Matrix.vec R * Matrix.mat R).
+    Variable qr : nat -> nat -> Matrix.mat R -> reply (Matrix.mat R).
+    Variable argsort : nat -> Matrix.vec R -> list nat.
+
+    Definition c12_oracle (cf : config R) (dt : dtype) (A E : lmat) (d : bool) : lmat :=
+      let n := length A in
+      match r_out (matrix_eigenvectors RO eigh qr argsort [n; n] dt (of_rows RO A) (Some (of_rows RO E)) cf d) with
+      | Ok _ _ Q => mtab n Q
+      | _ => E
+      end.
+
+    Lemma mnth_mtab n (Q : Matrix.mat R) i j : (i < n)%nat -> (j < n)%nat -> mnth RO (mtab n Q) i j = Q i j.
+    Proof.
+      intros Hi Hj. unfold mnth, mtab. rewrite (nth_map_seq (fun i => map (Q i) (seq 0 n))) by exact Hi.
+      apply nth_map_seq. exact Hj.
+    Qed.
+    Lemma mtab_length n (Q : Matrix.mat R) : length (mtab n Q) = n.
+    Proof. unfold mtab. rewrite map_length, seq_length. reflexivity. Qed.
+
+    Lemma cols_orthonormal_of_morth_cols n (Q : Matrix.mat R) : morth_cols RO n Q -> cols_orthonormal RO n (mtab n Q).
+    Proof.
+      intros H i j Hi Hj. specialize (H i j Hi Hj). rewrite rmmul_get in H by assumption.
+      unfold Matrix.mtrans, mid in H. rewrite delta_R. cbn [f1 f0 R_ops] in H. rewrite <- H.
+      apply sumn_ext. intros k Hk. rewrite !mnth_mtab by assumption. reflexivity.
+    Qed.
+
+    Lemma diagonalises_of_meq n (A : lmat) (Q : Matrix.mat R) L :
+      meq n (Matrix.mmul RO n (Matrix.mtrans Q) (Matrix.mmul RO n (of_rows RO A) Q)) (mdiag RO L) ->
+      diagonalises RO n A (mtab n Q).
+    Proof.
+      intros H i j Hi Hj Hne. specialize (H i j Hi Hj). rewrite rmmul_get in H by assumption.
+      unfold mdiag in H. destruct (Nat.eqb_spec i j) as [|_]; [contradiction|]. cbn [f0 R_ops] in H.
+      change (f0 RO) with 0. rewrite <- H. apply sumn_ext. intros k Hk.
+      unfold Matrix.mtrans. rewrite rmmul_get by assumption. rewrite <- rsum_mult_l.
+      apply sumn_ext. intros l Hl. rewrite !mnth_mtab by assumption. unfold of_rows, mnth. change (fmul RO) with Rmult. ring.
+    Qed.
+
+    (* eigendecomposition method through the C12 model: with LAPACK's contract [eigh_spec] the stored answer has
+       orthonormal columns, diagonalises the queried factor, eigenvalues ascending *)
+    Theorem c12_eigh_oracle_valid retry dt (A E : lmat) L Q :
+      (forall k n A L Q, eigh k n A = Answer (L, Q) -> eigh_spec rnd n A L Q) ->
+      length A <> 1%nat -> eigh 0%nat (length A) (of_rows RO A) = Answer (L, Q) ->
+      c12_oracle (EighCfg retry) dt A E false = mtab (length A) Q
+      /\ cols_orthonormal RO (length A) (mtab (length A) Q)
+      /\ diagonalises RO (length A) A (mtab (length A) Q)
+      /\ ascending (length A) L.
+    Proof.
+      intros Hspec Hn He. set (n := length A) in *.
+      destruct (eigvec_dispatch rnd eigh qr argsort Hspec) as (_ & _ & _ & _ & H5 & _).
+      destruct (H5 n dt (of_rows RO A) (Some (of_rows RO E)) retry L Q Hn He) as (Hrun & Ho & Hd & Ha).
+      unfold c12_oracle. fold n. rewrite Hrun. cbn [r_out].
+      split; [reflexivity|]. split; [apply cols_orthonormal_of_morth_cols; exact Ho|].
+      split; [apply (diagonalises_of_meq n A Q L); exact Hd|exact Ha].
+    Qed.
+
+    (* QR method through the C12 model: the stored answer is the k-th orthogonal-iteration iterate of the PREVIOUS basis
+       (Q_0 = previous basis, Q_(j+1) = Q factor of A Q_j), columns sorted by Rayleigh quotient, k fixed by the loop rule
+       (max_iterations, tolerance); with the contracts of qr and argsort its columns are orthonormal *)
+    Theorem c12_qr_oracle_is_orthogonal_iteration mi tol dt (A E : lmat) sh dt' Qres :
+      let n := length A in
+      n <> 1%nat -> is_zero_mat RO n (of_rows RO E) = false ->
+      r_out (matrix_eigenvectors RO eigh qr argsort [n; n] dt (of_rows RO A) (Some (of_rows RO E)) (QRCfg mi tol) false) = Ok sh dt' Qres ->
+      c12_oracle (QRCfg mi tol) dt A E false = mtab n Qres
+      /\ (exists k Qk, loop_rule rnd qr n (of_rows RO A) (of_rows RO E) tol (Z.to_nat mi) k
+                       /\ iterate rnd qr n (of_rows RO A) (of_rows RO E) k = Some Qk
+                       /\ Qres = permute_cols Qk (argsort n (rayleigh RO n (of_rows RO A) Qk)))
+      /\ ((forall k n M Q, qr k n M = Answer Q -> qr_spec rnd n M Q) -> (forall n v, argsort_spec n v (argsort n v)) ->
+          ((1 <= mi)%Z \/ morth_cols RO n (of_rows RO E)) -> cols_orthonormal RO n (mtab n Qres)).
+    Proof.
+      intros n Hn Hz Hrun. split; [unfold c12_oracle; fold n; rewrite Hrun; reflexivity|]. split.
+      - destruct (mev_qr_is_permuted_iterate rnd eigh qr argsort n _ _ tol dt mi sh dt' Qres Hn Hz Hrun)
+          as (k & Qk & H1 & H2 & _ & _ & H5 & _).
+        exists k, Qk. auto.
+      - intros Hqr Hargsort Hmi.
+        destruct (mev_qr_iter_orthonormal rnd eigh qr argsort Hqr Hargsort n _ _ tol dt mi sh dt' Qres Hn Hz Hmi Hrun)
+          as (_ & _ & _ & _ & _ & Ho).
+        apply cols_orthonormal_of_morth_cols. exact Ho.
+    Qed.
+  End C12Link.
+End Contracts.
+
+(* ====================================================================== Part 8: orders 1 and 2 in matrix form (any scalar) *)
+Local Close Scope R_scope.
+Section SmallOrders.
+  Context {F : Type} (Op : ops F).
+  Local Notation lmat := (list (list F)).
+
+  (* order 1: the rotated vector is Q^T x *)
+  Lemma mode_products_order1 n (Q : lmat) x : length x = n ->
+    mode_products Op [n] [Some Q] x = tab n (fun j => sumn Op n (fun i => fmul Op (vnth Op x i) (mnth Op Q i j))).
+  Proof.
+    intros Hx. cbn [mode_products numel fold_right]. rewrite map_id.
+    rewrite (concat_chunks Op) by (rewrite mode0_length; lia).
+    unfold mode0. rewrite Nat.mul_1_r. apply tab_ext. intros p Hp.
+    rewrite Nat.mod_1_r, Nat.div_1_r. apply sumn_ext. intros i Hi. rewrite Nat.mul_1_r, Nat.add_0_r. reflexivity.
+  Qed.
+
+  (* order 2: with X the m x n matrix of the block, the rotated block is L^T X R:
+     entry (a, b) = sum_j (sum_i X[i][j] L[i][a]) R[j][b] *)
+  Lemma mode_products_order2 m n (L Rr : lmat) x : length x = m * n ->
+    mode_products Op [m; n] [Some L; Some Rr] x
+    = tab (m * n) (fun p => sumn Op n (fun j => fmul Op (sumn Op m (fun i => fmul Op (vnth Op x (i * n + j)) (mnth Op L i (p / n))))
+                                                    (mnth Op Rr j (p mod n)))).
+  Proof.
+    intros Hx. change (mode_products Op [m; n] [Some L; Some Rr] x)
+      with (concat (map (mode_products Op [n] [Some Rr]) (chunks (numel [n]) m (mode0 Op m (numel [n]) L x)))).
+    change (numel [n]) with (n * 1). rewrite Nat.mul_1_r.
+    apply (concat_eq_tab Op _ m n).
+    - rewrite map_length. apply chunks_length.
+    - intros a Ha. rewrite (nth_map_lt _ _ a []) by (rewrite chunks_length; exact Ha).
+      rewrite mode_products_order1 by (apply chunks_row_length; [apply mode0_length|exact Ha]). apply tab_length.
+    - intros a b Ha Hb. unfold mnth. rewrite (nth_map_lt _ _ a []) by (rewrite chunks_length; exact Ha).
+      rewrite mode_products_order1 by (apply chunks_row_length; [apply mode0_length|exact Ha]).
+      rewrite nth_tab by exact Hb. rewrite div_small', mod_small' by exact Hb.
+      apply sumn_ext. intros j Hj. f_equal.
+      change (vnth Op (nth a (chunks n m (mode0 Op m n L x)) []) j) with (mnth Op (chunks n m (mode0 Op m n L x)) a j).
+      rewrite mnth_chunks by assumption. apply vnth_mode0; assumption.
+  Qed.
+End SmallOrders.
+
+(* ====================================================================== Part 9: dtype tags of the refresh, schedule checker (discrete) *)
+Section DtypeProofs.
+  Variable eigh_kernel_supported : dtype -> bool.
+  Variable qr_kernel_supported : dtype -> bool.
+  Local Notation tags := (refresh_tags eigh_kernel_supported qr_kernel_supported).
+
+  (* the repaired code: the estimate is cast to A's dtype, so A @ Q never mixes dtypes; the QR refresh succeeds for EVERY
+     pairing of parameter dtype and preconditioner dtype for which the platform has a QR kernel, and the stored basis
+     keeps the parameter dtype *)
+  Theorem qr_dtype_ok pdt fdt :
+    qr_kernel_supported fdt = true ->
+    tags true MQR pdt fdt true = RComputed fdt
+    /\ refresh_succeeds (tags true MQR pdt fdt true) = true
+    /\ stored_basis_tag pdt (tags true MQR pdt fdt true) = pdt.
+  Proof.
+    intros H. unfold refresh_tags. assert (E : dtype_eqb fdt fdt = true) by (destruct fdt; reflexivity).
+    rewrite E, H. repeat split; reflexivity.
+  Qed.
+
+  (* no QR kernel for the factor dtype: every refresh with a non-zero estimate fails (F11 on this platform: bfloat16) *)
+  Theorem qr_no_kernel_fails pdt fdt :
+    qr_kernel_supported fdt = false -> tags true MQR pdt fdt true = RNoKernel.
+  Proof.
+    intros H. unfold refresh_tags. assert (E : dtype_eqb fdt fdt = true) by (destruct fdt; reflexivity).
+    rewrite E, H. reflexivity.
+  Qed.
+
+  (* the code before commit 0ab4e53 (estimate not cast): A @ Q mixes dtypes exactly when they differ (F2) *)
+  Theorem qr_dtype_prefix_refuted pdt fdt :
+    tags false MQR pdt fdt true = RDtypeMismatch <-> pdt <> fdt.
+  Proof.
+    unfold refresh_tags. destruct pdt, fdt; cbn [dtype_eqb];
+      try (split; [intros _; discriminate|reflexivity]);
+      match goal with |- context [qr_kernel_supported ?d] => destruct (qr_kernel_supported d) end;
+      (split; [discriminate|intros H; exfalso; apply H; reflexivity]).
+  Qed.
+
+  (* first refresh (estimate all zero) and the eigendecomposition method: eigh on A, retried in float64 *)
+  Theorem eigh_path_tags cast pdt fdt :
+    tags cast MEigh pdt fdt true = eigh_tags eigh_kernel_supported fdt
+    /\ tags cast MEigh pdt fdt false = eigh_tags eigh_kernel_supported fdt
+    /\ tags cast MQR pdt fdt false = eigh_tags eigh_kernel_supported fdt
+    /\ (refresh_succeeds (eigh_tags eigh_kernel_supported fdt) = true <-> eigh_kernel_supported fdt = true \/ eigh_kernel_supported F64 = true).
+  Proof.
+    repeat split; try reflexivity; unfold eigh_tags.
+    - destruct (eigh_kernel_supported fdt) eqn:E1; [auto|]. destruct fdt; cbn; try rewrite E1; cbn;
+        destruct (eigh_kernel_supported F64) eqn:E2; cbn; intros H; try discriminate; auto.
+    - intros [H|H].
+      + rewrite H. reflexivity.
+      + destruct (eigh_kernel_supported fdt) eqn:E1; [reflexivity|]. destruct fdt; cbn; try rewrite H; try reflexivity.
+        congruence.
+  Qed.
+End DtypeProofs.
+
+(* on the measured platform (kernels for float32 / float64 only): all pairings succeed except QR with bfloat16 factors *)
+Theorem dtype_pairings_on_platform m pdt fdt nz :
+  refresh_succeeds (refresh_tags lapack_kernel lapack_kernel true m pdt fdt nz) = negb (match m, fdt, nz with MQR, BF16, true => true | _, _, _ => false end).
+Proof. destruct m, pdt, fdt, nz; reflexivity. Qed.
+
+Theorem C03_sched_checkb_sound freq start t has_grad :
+  C03_sched_checkb freq start t has_grad true = true ->
+  has_grad = true /\ (t = start \/ (start < t /\ t mod freq = 0))%Z.
+Proof.
+  unfold C03_sched_checkb. cbn [negb orb]. rewrite andb_true_iff, orb_true_iff, andb_true_iff, !Z.eqb_eq, Z.ltb_lt. tauto.
+Qed.
+
+(* ====================================================================== Part 10: non-vacuity *)
+Local Open Scope R_scope.
+Section Examples.
+  Variable rnd : R -> R.
+  Local Notation RO := (R_ops rnd).
+
+  Definition exQl : list (list R) := [[3/5; -4/5]; [4/5; 3/5]].             (* a rotation: orthonormal, not the identity *)
+  Definition exAl : list (list R) := [[41; -12]; [-12; 34]].                (* = exQl diag(25,50) exQl^T *)
+  (* SOAP, dimension 1 ignored *)
+  Definition exc : cfg (F:=R) :=
+    mkCfg 0 0 1 0 0 0 0 0 1%Z 1%Z false false false GNone KSoap [1%nat] (OvInt 0%Z) 1.
+  Definition exc0 : cfg (F:=R) :=
+    mkCfg 0 0 1 0 0 0 0 0 1%Z 1%Z false false false GNone KSoap [] (OvInt 0%Z) 1.
+
+  Ltac small_index i j := destruct i as [|[|i]]; [| |lia]; (destruct j as [|[|j]]; [| |lia]).
+
+  Example exQl_orthonormal : orthonormal RO 2 exQl.
+  Proof.
+    split; [reflexivity|]. split; intros i j Hi Hj; small_index i j; cbn; lra.
+  Qed.
+
+  Example exQl_diagonalises_exAl : diagonalises RO 2 exAl exQl.
+  Proof. intros i j Hi Hj Hne. small_index i j; try contradiction; cbn; lra. Qed.
+
+  Example exQl_basis_exists : soap_basis_exists RO [exQl; exQl] = true.
+  Proof.
+    cbn [soap_basis_exists]. unfold any_nonzero. apply existsb_exists. exists [3/5; -4/5]. split; [left; reflexivity|].
+    apply existsb_exists. exists (3/5). split; [left; reflexivity|]. apply nz_R. lra.
+  Qed.
+
+  (* the hypotheses of rotate_back_inverse hold for an order-3 block 2 x 1 x 2 with the middle dimension ignored and a
+     non-trivial orthonormal basis on the two other modes; the rotation really happens (a basis exists) *)
+  Example rotate_back_inverse_instance (x : list R) : length x = 4%nat ->
+    soap_rotate_back RO exc [2; 1; 2]%nat [exQl; exQl] (soap_rotate RO exc [2; 1; 2]%nat [exQl; exQl] x) = x.
+  Proof.
+    intros Hx. apply rotate_back_inverse.
+    - cbn. auto.
+    - cbn. destruct exQl_orthonormal as (_ & Hr & _). auto.
+    - exact Hx.
+  Qed.
+
+  (* ... and it is not the identity: order 1, Q^T (5, 10) = (11, 2) *)
+  Example soap_rotate_value : soap_rotate RO exc0 [2%nat] [exQl] [5; 10] = [11; 2].
+  Proof.
+    rewrite soap_rotate_spec; [|cbn; auto|reflexivity].
+    unfold rot_into_basis.
+    assert (E : soap_basis_exists RO [exQl] = true).
+    { cbn [soap_basis_exists]. unfold any_nonzero. apply existsb_exists. exists [3/5; -4/5]. split; [left; reflexivity|].
+      apply existsb_exists. exists (3/5). split; [left; reflexivity|]. apply nz_R. lra. }
+    rewrite E. cbn [length dims_selector seq map existsb negb c_ignored exc0 sel_mats].
+    refine (eq_trans (mode_products_order1 RO 2 exQl [5; 10] eq_refl) _). cbn. f_equal; [lra|f_equal; lra].
+  Qed.
+
+  (* without orthonormality the inverse fails: Q = (2) on a block with one entry gives 4 x *)
+  Example rotate_back_needs_orthonormal : soap_rotate_back RO exc0 [1%nat] [[[2]]] (soap_rotate RO exc0 [1%nat] [[[2]]] [1]) = [4].
+  Proof.
+    assert (E : soap_basis_exists RO [[[2]]] = true).
+    { cbn [soap_basis_exists]. unfold any_nonzero. apply existsb_exists. exists [2]. split; [left; reflexivity|].
+      apply existsb_exists. exists 2. split; [left; reflexivity|]. apply nz_R. lra. }
+    assert (R1 : soap_rotate RO exc0 [1%nat] [[[2]]] [1] = [2]).
+    { rewrite soap_rotate_spec; [|cbn; auto|reflexivity].
+      unfold rot_into_basis. rewrite E. cbn [length dims_selector seq map existsb negb c_ignored exc0 sel_mats].
+      refine (eq_trans (mode_products_order1 RO 1 [[2]] [1] eq_refl) _). cbn. f_equal. lra. }
+    rewrite R1.
+    rewrite soap_rotate_back_spec; [|cbn; auto|reflexivity].
+    unfold rot_back_from_basis. rewrite E. cbn [length dims_selector seq map existsb negb c_ignored exc0 sel_mats].
+    refine (eq_trans (mode_products_order1 RO 1 _ [2] eq_refl) _). cbn. f_equal. lra.
+  Qed.
+
+  (* an oracle meeting [eigh_contract] on a non-empty domain *)
+  Example eigh_contract_satisfiable :
+    let eigvecs := fun (_ _ : list (list R)) (_ : bool) => exQl in
+    let dom := fun A => A = exAl in
+    dom exAl /\ forall A E d, dom A -> orthonormal RO (length A) (eigvecs A E d) /\ diagonalises RO (length A) A (eigvecs A E d).
+  Proof.
+    cbv zeta. split; [reflexivity|]. intros A E d ->. split; [apply exQl_orthonormal|apply exQl_diagonalises_exAl].
+  Qed.
+End Examples.
+
+(* ====================================================================== Part 11: invariants over whole histories *)
+Local Close Scope R_scope.
+Section History.
+  Context {F : Type} (Op : ops F).
+  Local Notation lmat := (list (list F)).
+
+  (* shapes: the mode-k Gram matrix of a tensor of shape dims has d_k rows *)
+  Lemma tsh_rotl (d : nat) rest (x : list F) : tsh (rotl Op (mkT (d :: rest) x)) = rest ++ [d].
+  Proof. reflexivity. Qed.
+  Lemma tsh_rotl_n : forall k dims (x : list F), k <= length dims ->
+    tsh (rotl_n Op k (mkT dims x)) = skipn k dims ++ firstn k dims.
+  Proof.
+    induction k as [|k IH]; intros dims x Hk; [cbn; rewrite app_nil_r; reflexivity|].
+    destruct dims as [|d rest]; [cbn in Hk; lia|]. cbn [rotl_n].
+    change (rotl Op (mkT (d :: rest) x)) with (mkT (rest ++ [d]) (concat (mtrans Op (numel rest) (chunks (numel rest) d x)))).
+    rewrite IH by (rewrite app_length; cbn in *; lia).
+    cbn [skipn firstn]. cbn in Hk.
+    rewrite skipn_app, firstn_app. replace (k - length rest) with 0 by lia. cbn [skipn firstn]. rewrite app_nil_r, <- app_assoc. reflexivity.
+  Qed.
+
+  Lemma mgram_length (a : lmat) : length (mgram Op a) = length a.
+  Proof. unfold mgram. apply map_length. Qed.
+
+  Lemma gram_length dims (x : list F) k : k < length dims -> length (gram Op k (mkT dims x)) = nth k dims 0.
+  Proof.
+    intros Hk. unfold gram. rewrite tsh_rotl_n by lia.
+    destruct (skipn k dims) as [|dk rest] eqn:E.
+    - exfalso. apply (f_equal (@length nat)) in E. rewrite skipn_length in E. cbn in E. lia.
+    - cbn [app]. rewrite mgram_length, chunks_length.
+      rewrite <- (firstn_skipn k dims). rewrite app_nth2 by (rewrite firstn_length; lia).
+      rewrite firstn_length, Nat.min_l, Nat.sub_diag by lia.
+      rewrite E. reflexivity.
+  Qed.
+
+  Lemma madd_length (a b : lmat) n : length a = n -> length b = n -> length (madd Op a b) = n.
+  Proof. intros. unfold madd. apply map2_length_min; assumption. Qed.
+  Lemma mscale_length c (a : lmat) : length (mscale Op c a) = length a.
+  Proof. unfold mscale. apply map_length. Qed.
+
+  (* the factor update keeps one d_k x d_k factor per preconditioned mode *)
+  Lemma update_factors_fit_gen (c : cfg (F:=F)) (t : tensor (F:=F)) : forall sel i dims (fs : list lmat),
+    mats_fit sel dims fs ->
+    (forall j, j < length dims -> length (gram Op (i + j) t) = nth j dims 0) ->
+    mats_fit sel dims
+      (map2 (fun k Fk => if is_one Op (c_beta2 c) then madd Op Fk (gram Op k t)
+                         else madd Op (mscale Op (c_beta2 c) Fk) (mscale Op (fsub Op (f1 Op) (c_beta2 c)) (gram Op k t)))
+            (sel_indices i sel) fs).
+  Proof.
+    induction sel as [|b s IH]; intros i dims fs Hfit Hg.
+    - destruct dims; [cbn in *; subst; reflexivity|contradiction].
+    - destruct dims as [|d ds]; [destruct b; contradiction|].
+      assert (Hg' : forall j, j < length ds -> length (gram Op (S i + j) t) = nth j ds 0).
+      { intros j Hj. replace (S i + j) with (i + S j) by lia. apply (Hg (S j)). cbn. lia. }
+      destruct b.
+      + destruct fs as [|Fk fs]; [contradiction|]. destruct Hfit as [HF Hfit].
+        cbn [sel_indices app map2 mats_fit]. split; [|apply IH; assumption].
+        specialize (Hg 0 ltac:(cbn; lia)). rewrite Nat.add_0_r in Hg. cbn [nth] in Hg.
+        destruct (is_one Op (c_beta2 c)); apply madd_length; rewrite ?mscale_length; assumption.
+      + cbn [sel_indices app mats_fit]. apply IH; assumption.
+  Qed.
+
+  Lemma update_factors_fit (c : cfg (F:=F)) dims g (fs : list lmat) :
+    mats_fit (dims_selector c (length dims)) dims fs -> mats_fit (dims_selector c (length dims)) dims (update_factors Op c dims g fs).
+  Proof.
+    intros Hfit. unfold update_factors. apply update_factors_fit_gen; [exact Hfit|].
+    intros j Hj. apply gram_length. exact Hj.
+  Qed.
+
+  Lemma mats_fit_same_length : forall sel dims (a b : list lmat), mats_fit sel dims a -> mats_fit sel dims b -> length a = length b.
+  Proof.
+    induction sel as [|x s IH]; intros dims a b Ha Hb.
+    - destruct dims; [cbn in *; subst; reflexivity|contradiction].
+    - destruct dims as [|d ds]; [destruct x; contradiction|]. destruct x.
+      + destruct a as [|A a], b as [|B b]; try contradiction. destruct Ha as [_ Ha], Hb as [_ Hb]. cbn. rewrite (IH ds a b Ha Hb). reflexivity.
+      + apply (IH ds a b Ha Hb).
+  Qed.
+
+  Section OracleSizes.
+    Variable eigvecs : lmat -> lmat -> bool -> lmat.
+    (* the routine returns a matrix of the size of its input with orthonormal rows (torch.linalg.eigh / qr: measured) *)
+    Hypothesis eigvecs_rows_orthonormal : forall A E d, length (eigvecs A E d) = length A /\ rows_orthonormal Op (length A) (eigvecs A E d).
+
+    Lemma oracle_answers_fit : forall sel dims (fs invs : list lmat) dg,
+      mats_fit sel dims fs -> mats_fit sel dims invs -> length dg = length fs ->
+      mats_fit sel dims (oracle_answers Op eigvecs fs invs dg) /\ all_fit (rows_orthonormal Op) sel dims (oracle_answers Op eigvecs fs invs dg).
+    Proof.
+      induction sel as [|b s IH]; intros dims fs invs dg Hf Hi Hd.
+      - destruct dims; [cbn in *; subst; cbn; auto|contradiction].
+      - destruct dims as [|d ds]; [destruct b; contradiction|]. destruct b.
+        + destruct fs as [|Fk fs], invs as [|Ik invs]; try contradiction. destruct dg as [|g dg]; [discriminate|].
+          destruct Hf as [HF Hf], Hi as [HI Hi]. cbn [oracle_answers mats_fit all_fit].
+          destruct (eigvecs_rows_orthonormal Fk Ik (g && check_diagonal Op Fk)) as [Hl Ho]. rewrite HF in Hl, Ho.
+          destruct (IH ds fs invs dg Hf Hi ltac:(cbn in Hd; lia)) as [H1 H2]. repeat split; assumption.
+        + cbn [mats_fit all_fit]. apply IH; assumption.
+    Qed.
+
+    (* one step keeps the invariant (the gradient and the block have numel dims entries) *)
+    Lemma soap_inv_step (c : cfg (F:=F)) dims st t h w g0 :
+      c_kind c = KSoap -> soap_inv Op c dims st -> length w = numel dims -> length g0 = numel dims ->
+      soap_inv Op c dims (soap_state_step Op eigvecs c dims st (t, h, w, g0)).
+    Proof.
+      intros Hk (Hf & Hi & Hd & Hv & Hb) Hw Hg0. unfold soap_state_step.
+      set (fs := update_factors Op c dims (l2_grad Op c w g0) (s_factors st)).
+      set (answers := oracle_answers Op eigvecs fs (s_inv st) (s_isdiag st)).
+      destruct (block_step_soap Op c t h dims answers w st g0 Hk) as (E1 & E2 & E3 & _ & E5). cbv zeta in E1, E2, E3, E5. fold fs in E1, E2, E3, E5.
+      set (st' := snd (fst (block_step Op c t h dims answers w st g0))) in *.
+      assert (Hfs : mats_fit (dims_selector c (length dims)) dims fs) by (apply update_factors_fit; exact Hf).
+      assert (Hlen_i : length (s_inv st) = length fs) by (apply (mats_fit_same_length (dims_selector c (length dims)) dims); assumption).
+      assert (Hlen_d : length (s_isdiag st) = length fs) by (rewrite Hd; apply (mats_fit_same_length (dims_selector c (length dims)) dims); assumption).
+      destruct (oracle_answers_fit _ dims fs (s_inv st) (s_isdiag st) Hfs Hi Hlen_d) as [Hans Horth]. fold answers in Hans, Horth.
+      assert (Hg : length (l2_grad Op c w g0) = numel dims).
+      { unfold l2_grad. destruct (nz Op (c_wd c) && negb (c_decoupled c)); [|exact Hg0]. unfold vaxpy. apply map2_length_min; assumption. }
+      assert (Hinv' : mats_fit (dims_selector c (length dims)) dims (s_inv st')
+                      /\ length (s_isdiag st') = length fs
+                      /\ (soap_basis_exists Op (s_inv st') = false \/ all_fit (rows_orthonormal Op) (dims_selector c (length dims)) dims (s_inv st'))).
+      { rewrite E2, E3. destruct (perform_amortized c t).
+        - pose proof (refresh_lengths Op c (length dims) (bias_corr2 Op (c_biascorr c) (c_beta2 c) t (h_bc2 h)) fs (s_inv st) (s_isdiag st) answers Hlen_i Hlen_d) as HL.
+          pose proof (refresh_stores_answers Op c (length dims) (bias_corr2 Op (c_biascorr c) (c_beta2 c) t (h_bc2 h)) fs (s_inv st) (s_isdiag st) answers Hlen_i Hlen_d
+                        (mats_fit_same_length (dims_selector c (length dims)) dims _ _ Hans Hfs)) as HA.
+          destruct (refresh Op c (length dims) _ fs (s_inv st) (s_isdiag st) answers) as [[ri rd] rq]. cbn [fst snd] in *.
+          destruct HL as (_ & HL & _). rewrite HA. auto.
+        - cbn [fst snd]. auto. }
+      destruct Hinv' as (Hi' & Hd' & Hb').
+      unfold soap_inv. rewrite E1. repeat split; try assumption.
+      rewrite E5. unfold ema_sq. rewrite <- E2.
+      assert (Hrot : length (soap_rotate Op c dims (s_inv st') (l2_grad Op c w g0)) = numel dims).
+      { rewrite soap_rotate_spec by assumption. apply rot_into_basis_length_gen; assumption. }
+      destruct (is_one Op (c_beta2 c)); apply map2_length_min; assumption.
+    Qed.
+
+    (* every history: the invariant holds in every reachable state *)
+    Theorem soap_inv_run (c : cfg (F:=F)) dims : c_kind c = KSoap ->
+      forall (hist : list (Z * hints (F:=F) * list F * list F)) st,
+      soap_inv Op c dims st ->
+      Forall (fun i => length (snd (fst i)) = numel dims /\ length (snd i) = numel dims) hist ->
+      soap_inv Op c dims (fold_left (soap_state_step Op eigvecs c dims) hist st).
+    Proof.
+      intros Hk. induction hist as [|[[[t h] w] g0] hist IH]; intros st Hinv Hall; [exact Hinv|].
+      cbn [fold_left]. inversion Hall as [|? ? [Hw Hg] Hrest]; subst. cbn [fst snd] in Hw, Hg.
+      apply IH; [|exact Hrest]. apply soap_inv_step; assumption.
+    Qed.
+  End OracleSizes.
+End History.
+
+Local Open Scope R_scope.
+Section HistoryReal.
+  Variable rnd : R -> R.
+  Local Notation RO := (R_ops rnd).
+  Local Notation lmat := (list (list R)).
+  Variable eigvecs : lmat -> lmat -> bool -> lmat.
+  Hypothesis eigvecs_rows_orthonormal : forall A E d, length (eigvecs A E d) = length A /\ rows_orthonormal RO (length A) (eigvecs A E d).
+
+  (* in every state reachable from a well-formed state (e.g. the initial one: zero bases) by ANY history of steps, with any
+     schedule, rotating back undoes the rotation: the step is Adam in orthonormal coordinates (or in the original ones) *)
+  Theorem soap_rotation_invertible_in_every_reachable_state (c : cfg (F:=R)) dims :
+    c_kind c = KSoap ->
+    forall (hist : list (Z * hints (F:=R) * list R * list R)) st0,
+    soap_inv RO c dims st0 ->
+    Forall (fun i => length (snd (fst i)) = numel dims /\ length (snd i) = numel dims) hist ->
+    let st := fold_left (soap_state_step RO eigvecs c dims) hist st0 in
+    forall x, length x = numel dims -> soap_rotate_back RO c dims (s_inv st) (soap_rotate RO c dims (s_inv st) x) = x.
+  Proof.
+    intros Hk hist st0 Hinv Hall st x Hx.
+    destruct (soap_inv_run RO eigvecs eigvecs_rows_orthonormal c dims Hk hist st0 Hinv Hall) as (_ & Hi & _ & _ & Hb). fold st in Hi, Hb.
+    destruct Hb as [Hno|Horth]; [|apply rotate_back_inverse; assumption].
+    unfold soap_rotate_back, soap_rotate. unfold soap_basis_exists in Hno.
+    destruct (s_inv st) as [|Q0 Qs]; [reflexivity|]. rewrite Hno. reflexivity.
+  Qed.
+End HistoryReal.
+
+(* non-vacuity of the history theorems: the initial state of a 2 x 3 block (zero factors, zero bases) is well-formed, and an
+   oracle with orthonormal rows on every input exists (the identity of the right size) *)
+Section HistoryExamples.
+  Variable rnd : R -> R.
+  Local Notation RO := (R_ops rnd).
+  Definition zeros (n : nat) : list (list R) := tab n (fun _ => tab n (fun _ => 0)).
+  Definition ex_init : bstate (F:=R) := mkS [zeros 2; zeros 3] [zeros 2; zeros 3] [true; true] [0; 0; 0; 0; 0; 0] [] [] [].
+
+  Example ex_init_wellformed : soap_inv RO exc0 [2; 3]%nat ex_init.
+  Proof.
+    assert (E : nz RO 0 = false) by (apply nz_R_false; reflexivity).
+    unfold soap_inv. cbn. repeat split; try reflexivity. left. rewrite !E. reflexivity.
+  Qed.
+
+  Example identity_oracle_ok : forall (A E : list (list R)) (d : bool),
+    length (idmat RO (length A)) = length A /\ rows_orthonormal RO (length A) (idmat RO (length A)).
+  Proof.
+    intros A E d. split; [apply tab_length|]. intros i j Hi Hj. unfold idmat.
+    rewrite (sumn_ext RO _ _ (fun k => if Nat.eqb k i then (if Nat.eqb j k then 1 else 0) else 0)).
+    - rewrite (rsum_delta_r rnd (length A) i (fun k => if Nat.eqb j k then 1 else 0)) by exact Hi.
+      unfold delta. rewrite Nat.eqb_sym. reflexivity.
+    - intros k Hk. unfold mnth. rewrite !nth_tab by assumption. rewrite ?nth_tab by assumption.
+      rewrite (Nat.eqb_sym i k). destruct (Nat.eqb k i); cbn; [destruct (Nat.eqb j k); lra|destruct (Nat.eqb j k); lra].
+  Qed.
+End HistoryExamples.
